@@ -197,5 +197,7 @@ let () =
   register "d16.shipped_ref" (function [lines; tt; structs; protos; msgs; sg; a] ->
       (match Parse16.shipped_ref (strs lines) (rows tt) (strs structs) (strs protos) (strs msgs) (sigs3 sg) (dict a) with
        | Some s -> L [S s] | None -> L []) | _ -> failwith "arity");
+  register "d07.names_ok_shipped_x" (function [lines; tt; structs; protos; msgs; sg; a] ->
+      vbool (Parse16.names_ok_shipped_x (strs lines) (rows tt) (strs structs) (strs protos) (strs msgs) (sigs3 sg) (dict a)) | _ -> failwith "arity");
   register "d16.shipped_wf" (function [lines; tt; structs; protos; msgs; sg; a] ->
       vbool (Parse16.shipped_wf (strs lines) (rows tt) (strs structs) (strs protos) (strs msgs) (sigs3 sg) (dict a)) | _ -> failwith "arity")
